@@ -1,6 +1,8 @@
 """C17 -- font-metric arithmetic: fix_word text, scaling, compression, next-larger chains (TfmArith)."""
 import concurrent.futures as cf
 import json
+import os
+import shutil
 from pathlib import Path
 from vlib import *
 
@@ -186,10 +188,19 @@ def _gen(ctx, args, out, timeout=900):
         hang = Path(str(out) + ".hang")
         e = json.loads(hang.read_text()) if hang.exists() else {"fn": "?"}
         e["panic"] = "call did not return (watchdog)"
-        ctx.violation(f"the code under test did not return from: {json.dumps(e)[:400]}",
-                      {"part": args[0], "event": e, "verdict": {"key": "hang"}})
-        if not Path(out).exists() or count_lines(out) == 0:
-            Path(out).write_text(json.dumps(e) + "\n")
+        # keep the complete events written so far (the process ended without flushing), add the
+        # hanging call as an event with a "panic" field: TLC rejects it like any other panic
+        good = []
+        if Path(out).exists():
+            for line in Path(out).read_text(errors="replace").splitlines():
+                try:
+                    json.loads(line)
+                    good.append(line)
+                except ValueError:
+                    break
+        good.append(json.dumps(e))
+        Path(out).write_text("\n".join(good) + "\n")
+        log(f"[harness] {args[0]}: a call of the code under test did not return: {json.dumps(e)[:300]}")
     elif p.returncode != 0:
         log(p.stderr.decode(errors="replace")[-3000:])
         raise ToolError(f"harness failed rc={p.returncode}: vh {' '.join(map(str, args))}")
@@ -377,7 +388,10 @@ def replay(path):
     """Re-execute the recorded call on the current tree and judge it again with TLC."""
     r = json.load(open(path))
     ev = r.get("event", {})
-    ctx = Ctx("C17", "quick", LEVEL)
+    class _Scratch:  # not a Ctx: creating one would clear the stored replay files of the tier
+        work = VERIF / "work" / f"C17-replay-{os.getpid()}"
+    ctx = _Scratch()
+    ctx.work.mkdir(parents=True, exist_ok=True)
     try:
         build_harness()
         inp = ctx.work / "replay-in.json"
@@ -436,6 +450,8 @@ def selftest(ctx):
             if not ks:
                 return None
             e["chains"][ks[0]] = e["chains"][ks[0]][:-1]
+        elif fn == "nltags":
+            e["tags"] = e["tags"][:-1] if e["tags"] else [[1, 2]]
         return e
     seen, lines, expect = set(), [], []
     for e in picks:
